@@ -400,6 +400,9 @@ public:
       _search_start -= released_area_size;
       _largest_unused_area += released_area_size;
 
+      // If the block was full `_search_end` was zeroed, so make sure the search range covers the released area.
+      _search_end = Support::max(_search_end, released_area_end);
+
       // The block can become empty in incremental mode as well, in that case it has to be marked as such,
       // otherwise it would never be released or accounted as an empty block.
       if (area_used() == initial_area_start()) {
@@ -439,6 +442,9 @@ public:
     if (Support::bool_and(is_incremental(), _search_start == shrunk_area_end)) {
       _search_start -= shrunk_area_size;
       _largest_unused_area += shrunk_area_size;
+
+      // If the block was full `_search_end` was zeroed, so make sure the search range covers the released area.
+      _search_end = Support::max(_search_end, shrunk_area_end);
     }
     else {
       _search_start = Support::min(_search_start, shrunk_area_start);
